@@ -6,7 +6,7 @@ import json
 import core
 import runtime_h as rh
 
-RULE = ("(max_dt, current, target) triples: targets at exact multiples of max_dt from current and +-1..2 ulps around them, "
+RULE = ("(max_dt, current, target) triples (max_dt from 0.001 to 250 s): targets at exact multiples of max_dt from current, +-1..2 ulps and +- nanoseconds around them, "
         "random offsets within +-200 steps, current times at scales 0, 1, 1e3, 2^20, earlier/equal/later; both runtimes; "
         "distinct by (runtime, max_dt, cur, out); non-trivial = backward travel, or not an exact multiple, or max_dt != 0.1")
 NOTE = ["the universal theorems (direction, bounded, sum, no step when equal) are over exact rational arithmetic; the binary64 instance of the "
@@ -29,6 +29,11 @@ def gen_triples(ctx, n):
         c = rng.random()
         if c < 0.1:
             tgt = cur
+        elif c < 0.25:
+            # a target a few nanoseconds (or a few 1e-9 * max_dt) away from a whole number of steps
+            steps = rng.choice([-3, -2, -1, 1, 2, 3, 7])
+            delta = rng.choice([3e-10, 9.9e-10, 1.01e-9, 2e-9, 5e-9, 2.5e-7, 5e-10 * m, 2e-9 * m, 1e-8 * m]) * rng.choice([1, -1])
+            tgt = cur + m * steps + delta
         elif c < 0.5:
             steps = rng.randint(-40, 40)
             tgt = cur + m * steps
